@@ -92,6 +92,8 @@ def pick_bank(rng: random.Random, mapping: str, far: bool, used: set[int]) -> in
         if key not in used:
             used.add(key)
             return b
+    if not far:
+        return pick_bank(rng, mapping, True, used)  # the near banks are all taken: go further out
     raise RuntimeError("no free bank")
 
 
